@@ -6,6 +6,12 @@ import re
 
 # (file, kind, pattern, replacement, expected_count, why)
 RULES = [
+] + [
+    ("include/nstd/%s.hpp" % h, "regex", r"const Iterator& (begin|end)\(\) const \{return (_begin|_end);\}",
+     r"const Iterator& \1() const {return (Iterator&)\2;}", 2,
+     "R1: goto-cc loses 'const' on class-typed reference returns of const methods; same object returned")
+    for h in ("List", "HashMap", "HashSet", "Map", "MultiMap", "PoolList", "PoolMap", "Array")
+] + [
     ("include/nstd/Crypto/Sha256.hpp", "literal",
      "sha256.finalize((byte (&)[digestSize])hashKey);",
      "{ byte nvDigest[digestSize]; sha256.finalize(nvDigest); Memory::copy(hashKey, nvDigest, digestSize); }",
